@@ -153,7 +153,7 @@ func genCase(p string) func(t *rapid.T) Case {
 		np := rapid.IntRange(0, pr.maxPhases+common.Pick(0, 1)).Draw(t, "nphases")
 		for i := 0; i < np; i++ {
 			ph := Phase{Ops: genOps(t, pr, c.SegSize, 6, &prev), CrashSel: rapid.IntRange(0, 1000).Draw(t, "crashSel")}
-			ph.Tear = genTear(t, rapid.SampledFrom(append(tearModes, "mask", "mask")).Draw(t, "tmode"))
+			ph.Tear = genTear(t, rapid.SampledFrom(append(tearModes, "mask", "mask", "kill", "kill")).Draw(t, "tmode"))
 			if pr.coupleSizes && rapid.IntRange(0, 9).Draw(t, "lastWrite") < 6 {
 				// stale-bytes chains: end the phase with a (mostly hostile) append torn in flight
 				ph.CrashMode = "lastWrite"
@@ -166,6 +166,9 @@ func genCase(p string) func(t *rapid.T) Case {
 		for _, m := range tearModes {
 			c.Tears = append(c.Tears, genTear(t, m))
 		}
+		// the process dies but the machine stays up: nothing is lost and nothing has become durable;
+		// the power loss comes after the recovered WAL has been used again (usability script)
+		c.Tears = append(c.Tears, simfs.Tear{Mode: "kill"})
 		for i := 0; i < common.Pick(2, 8); i++ {
 			c.Tears = append(c.Tears, genTear(t, "mask"))
 		}
